@@ -139,6 +139,7 @@ template <class Mesh> struct Rep {
     HalfEdgePropertyT<int> the; HalfFacePropertyT<int> thf;
     std::vector<MProp> props;                    // model ids index this
     bool ever_reenabled = false;
+    bool pos_persistent = false;                 // set_persistent(vertex_positions())
     std::map<std::array<int, 3>, int> lat_v, lat_c;
     std::vector<IoRec> io;                        // extra persistent properties of all codec types (checkpointer)   // hex lattice: coordinate -> vertex uid / cell uid
     Rep() : mesh(new Mesh()), tv(mesh->template create_private_property<int, Entity::Vertex>("", -7)),
